@@ -943,3 +943,60 @@ func ruleStreamConfigCopiesAreComplete(c *eng.Ctx) {
 		c.Unresolved("module functions")
 	}
 }
+
+// ruleValidAcceptsTheNullMarkerEverywhere (R01.11 / R14.x extension): Message.Encode writes a nil key, value or header value as the
+// size -1, and the readers (Key, Value, Headers) read -1 back as nil. SerializedMessage.valid — what a follower checks a
+// replicated message with — therefore accepts -1 for every size-prefixed field: a size of -1 never reaches the `size < 0`
+// rejection. Otherwise a message the leader stored and serves is refused by every follower, and replication of the
+// partition stalls for good.
+func ruleValidAcceptsTheNullMarkerEverywhere(c *eng.Ctx) {
+	fn := c.Fn(cl + "(SerializedMessage).valid")
+	if fn == nil {
+		fn = c.FnQuiet(cl + "SerializedMessage.valid")
+	}
+	if fn == nil {
+		return
+	}
+	isSize := func(v ssa.Value) bool {
+		call := eng.AsCall(eng.Strip(v))
+		if call == nil {
+			return false
+		}
+		if call.Call.IsInvoke() {
+			return call.Call.Method.Name() == "Uint32"
+		}
+		return strings.HasSuffix(eng.CalleeRef(&call.Call), ".Uint32")
+	}
+	var decodes []ssa.Instruction
+	eng.Instrs(fn, func(in ssa.Instruction) {
+		if v, ok := in.(ssa.Value); ok && isSize(v) {
+			if _, isCall := in.(*ssa.Call); isCall {
+				decodes = append(decodes, in)
+			}
+		}
+	})
+	neg := eng.CmpEdges(fn, isSize, eng.IntConst(0), eng.LT)
+	notNull := eng.CmpEdges(fn, isSize, eng.IntConst(-1), eng.NE)
+	if len(decodes) == 0 || len(neg) == 0 {
+		c.Unresolved("the size reads and the `size < 0` rejections of SerializedMessage.valid")
+		return
+	}
+	isNeg := func(e eng.Edge) bool {
+		for _, n := range neg {
+			if n.From == e.From && n.Succ == e.Succ {
+				return true
+			}
+		}
+		return false
+	}
+	q := &eng.PathQuery{Fn: fn, FromAfter: decodes, TargetEdge: isNeg, CutEdges: notNull, CutInstr: func(x ssa.Instruction) bool {
+		for _, d := range decodes {
+			if x == d {
+				return true
+			}
+		}
+		return false
+	}}
+	w := q.Find()
+	c.Check(w == nil && len(notNull) > 0, "valid() accepts the null marker -1 for every size-prefixed field", c.P.Pos(fn.Pos()), "size == -1 is accepted before `size < 0` rejects, for the key, the value and every header value", "SerializedMessage.valid can reject a size of -1 ("+w.String()+"): Encode writes a nil header value (an envelope whose headers entry has no value) as -1 and the leader stores and serves the message, but every follower refuses every replication response that contains it — replication of the partition stalls permanently")
+}
